@@ -13,7 +13,7 @@ const whyRing = "a ring walk that leaves on cursor != start visits one node: are
 func init() {
 	register(&propDef{
 		id:          "C01",
-		explanation: "Decides structural clauses of C01: (table) the predicate deciding whether a closed edge bounds the solution (isContributingClosed) equals, on every cell of the code-derived partition of (fillRule, clipType, polytype, windCount, windCount2), the set-theoretic table the property states; (open-guard) the boundary test of intersectEdges' open branch is the same own-set test; (ring) every ring walk over OutPt/OutPt2/Vertex lists leaves on cursor==start, i.e. visits the whole ring; (order) the sort comparators implement the sweep order (minima bottom-up, intersections bottom-up then left to right); (mirror) intersectEdges decides and updates winding state under Negative exactly as under Positive on the negated state; (table2) two crossing same-set boundary edges start a polygon exactly where the boolean table has a boundary; (grow/split) records split off during clean-up are visited, and a ring split by a horizontal join is relabelled before ownership of the entry point is tested; (live) no call to a sweep/repair mechanism sits in a constant-dead block. Also: (wind) the winding-count representation (windCount = larger-magnitude winding of the two regions an edge separates, R - L = windDx, windCount2 = the other set's winding there) is preserved by setWindCountForClosedPathEdge and by both crossing cases of intersectEdges on every cell of a first-principles region model; (ael.join) a new left bound is never spliced in after the left half of a joined pair; (join.advance) an edge that moves to its next segment is tested for a join on every exit; (merged-owner) a record emptied by a merge gets an owner in flat mode too; (horz-roles) duplicateOp's flag is true exactly for the left-to-right segment of a horizontal join; (area-sign) every signed-area function uses the same (previous minus current) shoelace convention. (all-paths) every input path's points reach the vertex list unless it has none; (join.mirror) checkJoinLeft and checkJoinRight coincide under exchanging the neighbour side. Does NOT decide the sweep's geometry: edge ordering, intersection rounding, winding update arithmetic, join/split topology.",
+		explanation: "Decides structural clauses of C01: (table) the predicate deciding whether a closed edge bounds the solution (isContributingClosed) equals, on every cell of the code-derived partition of (fillRule, clipType, polytype, windCount, windCount2), the set-theoretic table the property states; (open-guard) the boundary test of intersectEdges' open branch is the same own-set test; (ring) every ring walk over OutPt/OutPt2/Vertex lists leaves on cursor==start, i.e. visits the whole ring; (order) the sort comparators implement the sweep order (minima bottom-up, intersections bottom-up then left to right); (mirror) intersectEdges decides and updates winding state under Negative exactly as under Positive on the negated state; (table2) two crossing same-set boundary edges start a polygon exactly where the boolean table has a boundary; (grow/split) records split off during clean-up are visited, and a ring split by a horizontal join is relabelled before ownership of the entry point is tested; (live) no call to a sweep/repair mechanism sits in a constant-dead block. Also: (wind) the winding-count representation (windCount = larger-magnitude winding of the two regions an edge separates, R - L = windDx, windCount2 = the other set's winding there) is preserved by setWindCountForClosedPathEdge and by both crossing cases of intersectEdges on every cell of a first-principles region model; (ael.join) a new left bound is never spliced in after the left half of a joined pair; (join.advance) an edge that moves to its next segment is tested for a join on every exit; (merged-owner) a record emptied by a merge gets an owner in flat mode too; (horz-roles) duplicateOp's flag is true exactly for the left-to-right segment of a horizontal join; (area-sign) every signed-area function uses the same (previous minus current) shoelace convention. (all-paths) every input path's points reach the vertex list unless it has none; (join.mirror) checkJoinLeft and checkJoinRight coincide under exchanging the neighbour side. Does NOT decide the sweep's geometry: edge ordering, intersection rounding, winding update arithmetic, join/split topology. Also (join.maxima): before a maxima pair is closed both of its edges were released from any join.",
 		notDecided:  []string{"active-edge ordering (isValidAelOrder)", "intersection detection and rounding", "horizontal processing, joins and splits", "doSplitOp's area condition (no in-repo oracle)"},
 		rules: []func(*Ctx){
 			ruleAelJoinSplice("C01.ael.join"),
@@ -245,7 +245,7 @@ func init() {
 	})
 	register(&propDef{
 		id:          "C06",
-		explanation: "Decides structural clauses of C06: (mirror) in getNextLocation, getIntersection and getLocation the Right arm is the left/right mirror image of the Left arm, Bottom of Top, and Top the diagonal image of Left — the clipper is equivariant under the rectangle's symmetries; (corner-live) no addCorner/addCornerLocation call is constant-dead; (fast) pathBounds is the bounds of the current path, disjoint paths are skipped and contained paths are returned as the input path itself; (bounds) the bounds accumulators start at the right extremes with independent per-axis updates. Also: (wrap) the predecessor of vertex 0 is the last vertex; (retire) tidyEdgePair reads the index of the slot it empties before relabelling the ring; (lag) checkEdges seeds its lagging edge set with the cyclic predecessor. (skip-only) a path is skipped only on a length test or because its bounds miss the rectangle. Does NOT decide the crossing-history logic of executeInternal nor checkEdges/tidyEdgePair. Also (inside.strict): while copying interior vertices getNextLocation leaves the Inside state towards a side only on the STRICT comparison against that side's own edge (explored with helpers and getLocation read inline), so a vertex exactly on an edge stays inside. Also (sibling.args): the polygon clipper and the line clipper hand segments to getIntersection in the same direction pattern.",
+		explanation: "Decides structural clauses of C06: (mirror) in getNextLocation, getIntersection and getLocation the Right arm is the left/right mirror image of the Left arm, Bottom of Top, and Top the diagonal image of Left — the clipper is equivariant under the rectangle's symmetries; (corner-live) no addCorner/addCornerLocation call is constant-dead; (fast) pathBounds is the bounds of the current path, disjoint paths are skipped and contained paths are returned as the input path itself; (bounds) the bounds accumulators start at the right extremes with independent per-axis updates. Also: (wrap) the predecessor of vertex 0 is the last vertex; (retire) tidyEdgePair reads the index of the slot it empties before relabelling the ring; (lag) checkEdges seeds its lagging edge set with the cyclic predecessor. (skip-only) a path is skipped only on a length test or because its bounds miss the rectangle. Does NOT decide the crossing-history logic of executeInternal nor checkEdges/tidyEdgePair. Also (inside.strict): while copying interior vertices getNextLocation leaves the Inside state towards a side only on the STRICT comparison against that side's own edge (explored with helpers and getLocation read inline), so a vertex exactly on an edge stays inside. Also (sibling.args): the polygon clipper and the line clipper hand segments to getIntersection in the same direction pattern. Also (scan.zero): the backward scan for the path's start location can look at vertex 0; (untouched): whether an untouched path contains the rectangle is decided by winding, not parity — violated on the pinned tree and recorded as a known finding.",
 		notDecided:  []string{"crossing-history logic of executeInternal (firstCross/startLocs bookkeeping)", "checkEdges / tidyEdgePair re-joining (tidyEdgePair tests horizontal overlap on vertical edges: only region-equivalent differences could be produced)", "1-unit rounding of intersection points"},
 		rules: []func(*Ctx){
 			ruleRectMirror("C06.mirror"),
@@ -253,6 +253,7 @@ func init() {
 			ruleInsideArmMirror("C06.mirror.inside"),
 			ruleInsideArmStrict("C06.inside.strict"),
 			ruleUntouchedByWinding("C06.untouched"),
+			ruleBackwardScanReachesZero("C06.scan.zero"),
 			ruleIntersectionArgOrder("C06.sibling.args"),
 			ruleRetireBeforeRelabel("C06.retire"),
 			ruleRectSkipOnly("C06.skip-only", "(RectClip64).Execute", []string{"(RectClip64).executeInternal"}),
